@@ -182,31 +182,38 @@ class Check:
         return not self.broken
 
     def audit(self, audit_file):
-        """run lean on Audit/<file>: every `#print axioms thm` line is an obligation; discharged iff its axioms are allowed"""
-        rc, out = sh(["lake", "env", "lean", os.path.join("Audit", audit_file)], cwd=LEAN)
-        wanted = re.findall(r"^#print axioms\s+(\S+)", open(os.path.join(LEAN, "Audit", audit_file)).read(), re.M)
-        self.obligations = wanted
-        found = {}
-        for m in re.finditer(r"'([^']+)' depends on axioms: \[([^\]]*)\]", out.replace("\n ", " ")):
-            found[m.group(1)] = {a.strip() for a in m.group(2).split(",") if a.strip()}
-        for m in re.finditer(r"'([^']+)' does not depend on any axioms", out):
-            found[m.group(1)] = set()
-        self.discharged = []
+        """run lean on Audit/<file> (and on Audit/<name>_tie.lean when present: the Tie-A equalities of the property, kept in a
+        file of their own so that a broken equality does not hide the other theorems): every `#print axioms thm` line is an
+        obligation; discharged iff its axioms are allowed"""
+        files = [audit_file]
+        tie_file = audit_file.replace(".lean", "_tie.lean")
+        if os.path.exists(os.path.join(LEAN, "Audit", tie_file)):
+            files.append(tie_file)
+        self.obligations, self.discharged = [], []
         axioms_used = set()
-        for w in wanted:
-            ax = found.get(w)
-            if ax is None:
-                # namespace-qualified names are printed in full; match by suffix
-                cands = [k for k in found if k == w or k.endswith("." + w)]
-                ax = found[cands[0]] if cands else None
-            if ax is not None and ax <= ALLOWED_AXIOMS:
-                self.discharged.append(w)
-                axioms_used |= ax
-            else:
-                self.broken.append({"kind": "audit", "theorem": w,
-                                    "detail": "not proved in this build" if ax is None else "axioms: %s" % sorted(ax)})
+        for af in files:
+            rc, out = sh(["lake", "env", "lean", os.path.join("Audit", af)], cwd=LEAN)
+            wanted = re.findall(r"^#print axioms\s+(\S+)", open(os.path.join(LEAN, "Audit", af)).read(), re.M)
+            self.obligations += wanted
+            found = {}
+            for m in re.finditer(r"'([^']+)' depends on axioms: \[([^\]]*)\]", out.replace("\n ", " ")):
+                found[m.group(1)] = {a.strip() for a in m.group(2).split(",") if a.strip()}
+            for m in re.finditer(r"'([^']+)' does not depend on any axioms", out):
+                found[m.group(1)] = set()
+            for w in wanted:
+                ax = found.get(w)
+                if ax is None:
+                    # namespace-qualified names are printed in full; match by suffix
+                    cands = [k for k in found if k == w or k.endswith("." + w)]
+                    ax = found[cands[0]] if cands else None
+                if ax is not None and ax <= ALLOWED_AXIOMS:
+                    self.discharged.append(w)
+                    axioms_used |= ax
+                else:
+                    self.broken.append({"kind": "audit", "theorem": w,
+                                        "detail": "not proved in this build" if ax is None else "axioms: %s" % sorted(ax)})
         self.extra["axioms_used"] = sorted(axioms_used)
-        return len(self.discharged) == len(wanted)
+        return len(self.discharged) == len(self.obligations)
 
     def driver(self, cases, timeout=1800):
         """pipe JSON cases to the compiled Lean driver, return the replies (same order)"""
